@@ -152,17 +152,17 @@ class Loop:
 
 def run(ctx: Ctx):
     L = Loop(ctx)
-    r9_1(ctx, L)
-    r9_2(ctx, L)
-    r9_3(ctx, L)
-    r9_4(ctx, L)
-    r9_5(ctx, L)
-    r9_6(ctx, L)
+    ctx.attempt("R9.1", lambda: r9_1(ctx, L))
+    ctx.attempt("R9.2", lambda: r9_2(ctx, L))
+    ctx.attempt("R9.3", lambda: r9_3(ctx, L))
+    ctx.attempt("R9.4", lambda: r9_4(ctx, L))
+    ctx.attempt("R9.5", lambda: r9_5(ctx, L))
+    ctx.attempt("R9.6", lambda: r9_6(ctx, L))
     # "a bond-preserving single-atom move": the traversal discipline and the pull length of move_mol_atom (C07)
     from . import c07
-    c07.r7_2_3(ctx, ctx.func("move_mol_atom"))
-    c07.r7_5(ctx, ctx.func("move_mol_atom"))
-    c07.r7_6(ctx, ctx.func("move_mol_atom"), ctx.func("find_atom_random_displ"))
+    ctx.attempt("R7.2", lambda: c07.r7_2_3(ctx, ctx.func("move_mol_atom")))
+    ctx.attempt("R7.5", lambda: c07.r7_5(ctx, ctx.func("move_mol_atom")))
+    ctx.attempt("R7.6", lambda: c07.r7_6(ctx, ctx.func("move_mol_atom"), ctx.func("find_atom_random_displ")))
 
 
 def _in_accept_branch_toplevel(L: Loop, st) -> bool:
@@ -187,7 +187,11 @@ def r9_1(ctx: Ctx, L: Loop, rule="R9.1"):
         inside = any(a is x for x in ast.walk(L.loop))
         if not inside:
             # initial: energy(<held>) evaluated on the initial configuration
-            good = isinstance(v, ast.Call) and norm(v.func) == L.energy and v.args and norm(v.args[0]) == L.held
+            # ... the held configuration itself, or what it was initialised from (`held = start; e = energy(start)`)
+            inits_ = [s_ for s_ in stmts_sorted(f.node) if isinstance(s_, ast.Assign) and norm(s_.targets[0]) == L.held
+                      and s_.lineno < L.loop.lineno and isinstance(s_.value, ast.Name)]
+            held_names = {L.held} | ({inits_[-1].value.id} if inits_ else set())
+            good = isinstance(v, ast.Call) and norm(v.func) == L.energy and v.args and norm(v.args[0]) in held_names
             facts.append("initial %s" % norm(a))
             ok_e0 &= bool(good)
         else:
@@ -429,7 +433,8 @@ def r9_5(ctx: Ctx, L: Loop, rule="R9.5"):
            "the counter starts at 0", node=init[-1] if init else f.node)
     # best-energy variable: compared with the held energy by a strict <
     from ..cfg import resolve_flags
-    paths = resolve_flags(enum_paths(L.loop.body))
+    # a path that ends in `raise` abandons the search altogether: there is no bookkeeping to keep on it
+    paths = [p_ for p_ in resolve_flags(enum_paths(L.loop.body)) if p_.end != "raise"]
     ctx.extra["loop_body_paths"] = len(paths)
     ctx.floor(rule, len(paths), 4, "paths of the loop body")
     best = None
